@@ -721,7 +721,14 @@ def construct(desc: dict, style: str = "typing") -> tuple[str, str]:
             if wrong:
                 raise MachineryError(f"supply not realised ({desc['shape']}): {wrong}")
         try:
-            Pipeline(funcs, validate_type_annotations=desc["validate"])
+            # how the pipeline comes to hold its functions must not matter: every third case adds them one by one
+            import zlib
+            if zlib.crc32(repr((desc.get("shape"), desc.get("p", 0), desc.get("c", 0))).encode()) % 3 == 0:
+                pl = Pipeline([], validate_type_annotations=desc["validate"])
+                for f_ in funcs:
+                    pl.add(f_)
+            else:
+                Pipeline(funcs, validate_type_annotations=desc["validate"])
             out, msg = "accept", ""
         except TypeError as e:
             msg = str(e)
